@@ -283,3 +283,50 @@ func VerifH_C20_notnull() {
 	}
 	symReach("end")
 }
+
+// H20d: a table without a PRIMARY KEY gets a hidden key column in front of
+// the declared ones, so SQLite's column i is the (i-1)-th declared column:
+// NOT NULL applies to the column it was declared on, and the values come back
+// in the declared order.
+func VerifH_C20_rowid() {
+	symStub("parseSchema", true)
+	aNotNull := symChoice("a-not-null", 2) == 1
+	bNotNull := symChoice("b-not-null", 2) == 1
+	vC20Schema = &sqlTypes.Schema{Columns: []sqlTypes.SchemaColumn{{Name: "a", NotNull: aNotNull}, {Name: "b", NotNull: bNotNull}}}
+	bkt := vNewBucket()
+	vt := vMustOpen(bkt.client(1), vTableOpts{bf: 2}, 10)
+	symAssert(convertSchema("ignored", vt) == nil, "definition-accepted")
+	symAssert(vt.usesRowID, "table-without-key-uses-a-hidden-key")
+	val := func(name string) interface{} {
+		if symChoice(name+"-null", 2) == 1 {
+			return nil
+		}
+		return symInt64(name)
+	}
+	a, b := val("a"), val("b")
+	// INSERT INTO t(a, b) VALUES (..): the hidden column arrives as NULL
+	_, err := vt.Insert(vAt(100), map[int]interface{}{0: nil, 1: a, 2: b})
+	violates := (aNotNull && a == nil) || (bNotNull && b == nil)
+	rows, serr := vScan(vt)
+	symAssert(serr == nil, "scan-ok")
+	if violates {
+		symAssert(err == ErrS3DBConstraintNotNull, "insert-of-null-into-not-null-column-refused")
+		symAssert(len(rows) == 0, "refused-insert-leaves-no-row")
+	} else {
+		symAssert(err == nil, "insert-ok")
+		symAssert(len(rows) == 1, "row-visible")
+		if len(rows) == 1 {
+			symAssert(symDeepEq(rows[0].b, a), "first-declared-column-reads-back")
+			symAssert(symDeepEq(rows[0].c, b), "second-declared-column-reads-back")
+		}
+		// UPDATE t SET b = NULL
+		key := rows[0].k
+		err := vt.Update(vAt(200), key, map[int]interface{}{2: nil})
+		if bNotNull {
+			symAssert(err == ErrS3DBConstraintNotNull, "update-to-null-of-not-null-column-refused")
+		} else {
+			symAssert(err == nil, "update-ok")
+		}
+	}
+	symReach("end")
+}
